@@ -483,6 +483,50 @@ NiShape* toStripsSameTriangles(NifFile& nif, NiShape* shape, Rng& rng) {
 	return sRaw;
 }
 
+int stripPartitions(NifFile& nif, Rng& rng) {
+	int changed = 0;
+	auto& hdr = nif.GetHeader();
+	for (uint32_t b = 0; b < hdr.GetNumBlocks(); b++) {
+		auto sp = hdr.GetBlock<NiSkinPartition>(b);
+		if (!sp || !sp->bMappedIndices) continue;
+		for (auto& p : sp->partitions) {
+			if (p.numStrips || p.triangles.empty() || p.vertexMap.empty()) continue;
+			std::vector<std::vector<uint16_t>> strips;
+			size_t k = 0;
+			while (k < p.triangles.size()) {
+				const Triangle& t = p.triangles[k];
+				uint32_t form = rng.below(4);
+				if (form == 3 && k + 1 < p.triangles.size()) {
+					// two triangles in one strip, stitched by degenerates; the second one sits at an odd position and is stored flipped
+					const Triangle& u = p.triangles[k + 1];
+					strips.push_back({t.p1, t.p2, t.p3, t.p3, u.p1, u.p1, u.p3, u.p2});
+					k += 2;
+					continue;
+				}
+				switch (form) {
+					case 0: strips.push_back({t.p1, t.p2, t.p3}); break;
+					case 1: strips.push_back({t.p1, t.p1, t.p3, t.p2}); break;
+					default: strips.push_back({t.p1, t.p2, t.p3, t.p3}); break;
+				}
+				k++;
+			}
+			size_t count = 0;
+			p.stripLengths.clear();
+			for (auto& st : strips) { p.stripLengths.push_back((uint16_t)st.size()); count += st.size() - 2; }
+			if (count > 65535 || strips.size() > 65535) { p.stripLengths.clear(); continue; }
+			p.strips = std::move(strips);
+			p.numStrips = (uint16_t)p.strips.size();
+			p.numTriangles = (uint16_t)count;
+			p.hasFaces = true;
+			p.triangles.clear();
+			p.trueTriangles.clear();
+			changed++;
+		}
+		if (changed) sp->triParts.clear();
+	}
+	return changed;
+}
+
 int dropPartitionFaces(NifFile& nif) {
 	int changed = 0;
 	auto& hdr = nif.GetHeader();
